@@ -28,7 +28,7 @@ def _elements(x):
     return [g for g in x]
 
 
-def h_transform(cx, sps, kind, inplace, axis=2, container=False, touched=False):
+def h_transform(cx, sps, kind, inplace, axis=2, container=False, touched=False, pre=None):
     ops = geo.M('operations')
     objs = []
     for i, sp in enumerate(sps):
@@ -60,6 +60,24 @@ def h_transform(cx, sps, kind, inplace, axis=2, container=False, touched=False):
         for _g in src:
             break
         next(iter(src))
+    if pre == 'segment':
+        # only a segment of every shape (not starting at the domain start) was sampled earlier
+        for o in objs:
+            dom = shapes.domain(o)
+            mid = [(d[0] + d[1]) / 2 for d in dom]
+            if o.pdimension == 1:
+                o.sample_size = 3
+                o.evaluate(start=mid[0])
+            elif o.pdimension == 2:
+                o.sample_size = 2
+                o.evaluate(start_u=mid[0], start_v=mid[1])
+            else:
+                o.sample_size = 2
+                o.evaluate(start_u=mid[0], start_v=mid[1], start_w=mid[2])
+    elif pre == 'evalpts':
+        for o in objs:
+            o.sample_size = 2 if o.pdimension > 1 else 3
+            o.evalpts
     origs = [shapes.clone(o) for o in objs]
     snaps = [shapes.snapshot(o) for o in objs]
     dim = sps[0]['dim']
@@ -134,6 +152,11 @@ def instances(tier):
                 if quick and sp['kind'] == 'volume' and inplace and ax != 1:
                     continue
                 out.append(inst('%s rotate axis%d inplace=%s' % (spec_name(sp), ax, inplace), h_transform, timeout=1800, sps=[sp], kind='rotate', inplace=inplace, axis=ax))
+    for sp in (spec('curve', (2,), ((1,),), rational=True, dim=3), spec('surface', (1, 2), ((), (1,)), rational=False), spec('volume', (1, 1, 1), ((), (), ()), rational=True)):
+        for pre in ('segment', 'evalpts'):
+            for inplace in (False, True):
+                for kind in ('translate', 'scale', 'rotate'):
+                    out.append(inst('%s (%s sampled before) %s inplace=%s' % (spec_name(sp), pre, kind, inplace), h_transform, timeout=1800, sps=[sp], kind=kind, inplace=inplace, axis=2, pre=pre))
     # containers
     c2 = [spec('curve', (2,), ((1,),), rational=True, dim=3), spec('curve', (1,), ((1,),), rational=False, dim=3)]
     s2 = [spec('surface', (1, 1), ((), ()), rational=True), spec('surface', (1, 2), ((), ()), rational=False)]
